@@ -145,8 +145,11 @@ below_min(struct fn *f, int minv)
         struct vh_region r = vh_region_new(VH_PAGE);
         int v, j, ret = 0, faulted;
         vh_region_free(&r); /* now inaccessible */
-        for (v = 0; v < minv; v++) {
+        static const int negs[] = { -1, -2, -100, -2147483647 - 1 };
+        int vi;
+        for (vi = 0; vi < minv + 4; vi++) {
                 int lens[] = { 0, 32, 64, 4096 }, li;
+                v = vi < minv ? vi : negs[vi - minv]; /* and negative counts: they are below the minimum too */
                 for (li = 0; li < 4; li++) {
                         for (j = 0; j < 8; j++)
                                 arr[j] = r.lo;
